@@ -71,24 +71,128 @@ func typeSwitchCases(L *Loaded, pkgPath, recv, name string) (map[string]bool, bo
 	}
 	cases := map[string]bool{}
 	found := false
-	ast.Inspect(fd.Body, func(n ast.Node) bool {
-		ts, ok := n.(*ast.TypeSwitchStmt)
-		if !ok || found {
-			return !found
+	objOf := func(e ast.Expr) types.Object {
+		if id, ok := ast.Unparen(e).(*ast.Ident); ok {
+			return p.TypesInfo.ObjectOf(id)
 		}
-		found = true
-		for _, st := range ts.Body.List {
-			for _, e := range st.(*ast.CaseClause).List {
-				t := p.TypesInfo.TypeOf(e)
-				if pt, ok := t.(*types.Pointer); ok {
-					if nt, ok := pt.Elem().(*types.Named); ok {
-						cases[nt.Obj().Name()] = true
+		return nil
+	}
+	switchOperand := func(ts *ast.TypeSwitchStmt) ast.Expr {
+		var e ast.Expr
+		switch a := ts.Assign.(type) {
+		case *ast.AssignStmt:
+			if len(a.Rhs) == 1 {
+				e = a.Rhs[0]
+			}
+		case *ast.ExprStmt:
+			e = a.X
+		}
+		if ta, ok := ast.Unparen(e).(*ast.TypeAssertExpr); ok {
+			return ta.X
+		}
+		return nil
+	}
+	addImplementers := func(it *types.Interface) {
+		for _, nm := range p.Types.Scope().Names() {
+			tn, ok := p.Types.Scope().Lookup(nm).(*types.TypeName)
+			if !ok {
+				continue
+			}
+			if _, isIface := tn.Type().Underlying().(*types.Interface); isIface {
+				continue
+			}
+			if types.Implements(types.NewPointer(tn.Type()), it) || types.Implements(tn.Type(), it) {
+				cases[tn.Name()] = true
+				found = true
+			}
+		}
+	}
+	type key struct {
+		fd  *ast.FuncDecl
+		sub types.Object
+	}
+	seen := map[key]bool{}
+	// scan: the cases under which fd handles the value `subject` (nil at the entry: the operand of its first type switch)
+	var scan func(fd *ast.FuncDecl, subject types.Object, depth int)
+	scan = func(fd *ast.FuncDecl, subject types.Object, depth int) {
+		if fd == nil || fd.Body == nil || seen[key{fd, subject}] || depth > 3 {
+			return
+		}
+		seen[key{fd, subject}] = true
+		ast.Inspect(fd.Body, func(n ast.Node) bool {
+			switch x := n.(type) {
+			case *ast.TypeSwitchStmt:
+				op := objOf(switchOperand(x))
+				if subject == nil && depth == 0 && op != nil {
+					subject = op
+				}
+				if op == nil || op != subject {
+					return true
+				}
+				found = true
+				for _, st := range x.Body.List {
+					for _, e := range st.(*ast.CaseClause).List {
+						t := p.TypesInfo.TypeOf(e)
+						if pt, ok := t.(*types.Pointer); ok {
+							if nt, ok := pt.Elem().(*types.Named); ok {
+								cases[nt.Obj().Name()] = true
+							}
+						}
+					}
+				}
+			case *ast.TypeAssertExpr:
+				// dispatch through a small interface of the package: every implementer is handled by its own method
+				if x.Type == nil {
+					return true
+				}
+				op := objOf(x.X)
+				if subject == nil && depth == 0 && op != nil {
+					if _, isParam := op.(*types.Var); isParam && fd.Type.Params != nil {
+						for _, fl := range fd.Type.Params.List {
+							for _, nm := range fl.Names {
+								if p.TypesInfo.Defs[nm] == op {
+									subject = op
+								}
+							}
+						}
+					}
+				}
+				if op == nil || op != subject {
+					return true
+				}
+				if it, ok := p.TypesInfo.TypeOf(x.Type).Underlying().(*types.Interface); ok && it.NumMethods() > 0 {
+					if nt, isN := p.TypesInfo.TypeOf(x.Type).(*types.Named); isN && nt.Obj().Pkg() != nil && nt.Obj().Pkg().Path() == pkgPath {
+						addImplementers(it)
+					}
+				}
+			case *ast.CallExpr:
+				// the rest of the cases may live in a helper of the same package that receives the value itself
+				if subject == nil {
+					return true
+				}
+				callee := calleeDecl(p, x)
+				if callee == nil || callee.Type.Params == nil {
+					return true
+				}
+				for i, a := range x.Args {
+					if objOf(a) != subject {
+						continue
+					}
+					k := 0
+					for _, fl := range callee.Type.Params.List {
+						for _, nm := range fl.Names {
+							if k == i {
+								scan(callee, p.TypesInfo.Defs[nm], depth+1)
+							}
+							k++
+						}
 					}
 				}
 			}
-		}
-		return false
-	})
+			return true
+		})
+	}
+	scan(fd, nil, 0)
 	return cases, found
 }
 
